@@ -170,6 +170,22 @@ def chk_dist(ctx, case):
         ctx.violation("dist", "MultinomialDistribution.__init__", "unexpected-raise", "implementation raised %s, model accepts" % impl[1], case)
         return
     sh_m, zero_m, ps_m = parse_dist(val)
+    # the same numbers handed over as a python list, a strided view, a read-only-source copy, float32-exact / integer data: same object
+    variants = [("list", lambda: list(ps)), ("strided-view", lambda: np.array([x for p_ in ps for x in (p_, -7.0)], dtype=float)[::2]),
+                ("reversed-view", lambda: np.array(ps[::-1], dtype=float)[::-1])]
+    if all(float(x).is_integer() for x in ps):
+        variants.append(("int-dtype", lambda: np.array([int(x) for x in ps])))
+    for vname, mk in variants:
+        try:
+            with warnings.catch_warnings():
+                warnings.simplefilter("ignore")
+                d2 = MD(mk(), shape=None if shape_arg is None else tuple(shape_arg), **kw)
+            same = list(d2.shape) == list(d.shape) and bool(d2.is_zero_dist) == bool(d.is_zero_dist) and [float(x) for x in d2.ps] == [float(x) for x in d.ps]
+        except Exception as e:
+            same = False
+        ctx.count("dist", key=("variant", vname, tuple(shape), pkey), nontrivial=False, label="input-" + vname)
+        if not same:
+            ctx.violation("dist", "MultinomialDistribution.__init__", "input-container", "ps given as %s: result differs from the one for a contiguous float64 array" % vname, case)
     if [x == 0 for x in d.ps] != [x == 0 for x in ps_m]:
         # the DECISION which entries are zeroed is exact on both sides (same doubles, same threshold): no band
         ctx.violation("dist", "MultinomialDistribution.__init__", "zeroing-decision", "eps_zero=%s input %s: implementation zeroes %s, model (prob < eps_zero) zeroes %s" % (
@@ -311,6 +327,11 @@ def gen_dist_cases(ctx, n):
             idxs = rng.sample(axes, k)
             vals = [rng.randrange(shape[a]) for a in idxs]
             conds.append([idxs, vals])
+        if r >= 2 and rng.random() < 0.35:
+            a = rng.randrange(r)                      # the same variable listed twice with different values: the LATER assignment decides
+            b = rng.choice([x for x in range(r) if x != a])
+            v1, v2 = rng.randrange(shape[a]), rng.randrange(shape[a])
+            conds.append(rng.choice([[[a, a], [v1, v2]], [[a, b, a], [v1, rng.randrange(shape[b]), v2]]]))
         if rng.random() < 0.1 and r >= 1:
             conds.append([[0], [shape[0]]])          # value out of range
         if rng.random() < 0.1:
@@ -550,6 +571,22 @@ def chk_ensemble(ctx, case):
         if k_impl != k_model:
             ctx.violation("ensemble", "StateEnsemble.state", "layout", "state(%s) is entry %d, distribution index is %d" % (idx, k_impl, k_model), dict(case, idx=list(idx)))
     index_probe(ctx, "ensemble", "StateEnsemble.state", lambda a: se.state(a).k, shape, [float(k) for k in range(n)], case, n * 5 + len(shape))
+    # StateEnsemble.__init__ as translated (gen_ens_init): eps_zero < 0 -> ValueError; a non-distribution -> TypeError; lengths differ -> ValueError
+    dist = MD(ps.copy(), shape=tuple(shape))
+    probes = [("ok", lambda: StateEnsemble(states, dist, eps_zero=0.0), None), ("ok", lambda: StateEnsemble(states, dist, 2.0 ** -20), None),
+              ("neg-eps", lambda: StateEnsemble(states, dist, eps_zero=-2.0 ** -60), "ValueError"),
+              ("not-a-distribution", lambda: StateEnsemble(states, list(ps)), "TypeError"),
+              ("short", lambda: StateEnsemble(states[:-1], dist), "ValueError"), ("long", lambda: StateEnsemble(states + [Tag(n)], dist), "ValueError")]
+    for nm, fn_, exp in probes:
+        try:
+            o = fn_(); got = None
+            if o.states is not None and (len(o.states) != n or o.prob_dist is not dist):
+                got = "wrong-fields"
+        except Exception as e:
+            got = type(e).__name__
+        ctx.count("ensemble", key=("ctor", tuple(shape), nm), nontrivial=False, label="ctor-" + nm)
+        if got != exp:
+            ctx.violation("ensemble", "StateEnsemble.__init__", "validation", "case %s on shape %s: %s, expected %s" % (nm, shape, got, exp), dict(case, ctor=nm))
 
 
 def sub_ensemble(ctx):
@@ -770,7 +807,9 @@ def chk_ensemble_skeleton(ctx, case):
         warnings.simplefilter("ignore")
         se = StateEnsemble(list(old_states), MD(np.array(p_old), shape=tuple(osh)))
     w_old = [float(x) for x in se.prob_dist.ps]
-    fake = types.SimpleNamespace(shape=tuple(msh), hss=[None] * mm, eps_zero=1e-8, mode_sampling=False)
+    e_mp, e_old = case.get("eps", [1e-8, 1e-8])
+    se = StateEnsemble(list(old_states), se.prob_dist, eps_zero=e_old)
+    fake = types.SimpleNamespace(shape=tuple(msh), hss=[None] * mm, eps_zero=e_mp, mode_sampling=False)
 
     def stub(elem1, state_old, weight=1.0):
         return [Tag(state_old.e, j) for j in range(mm)], [weight * c for c in cond[state_old.e]]
@@ -809,6 +848,9 @@ def chk_ensemble_skeleton(ctx, case):
         if (st.e, st.j) != (e_m, j_m) or total != n * mm or abs(pr - expect[k_flat]) > 1e-12:
             ctx.violation("ensemble_skeleton", site, "layout", "entry %s: state of (old entry %s, outcome %s) with probability %s; model: (old entry %d, outcome %d), probability %s" % (
                 idx, st.e, st.j, pr, e_m, j_m, expect[k_flat]), dict(case, idx=list(idx)))
+    if float(ens.eps_zero) != max(e_mp, e_old) or float(ens.prob_dist.eps_zero) != 1e-8:
+        ctx.violation("ensemble_skeleton", site, "eps-zero", "instrument eps_zero %s, ensemble eps_zero %s: result has %s (distribution %s); expected the maximum (distribution: default 1e-8)" % (
+            e_mp, e_old, ens.eps_zero, ens.prob_dist.eps_zero), case)
     if [float(x) for x in se.prob_dist.ps] != w_old or any(a is not b for a, b in zip(se.states, old_states)):
         ctx.violation("ensemble_skeleton", site, "mutates-argument", "the measured ensemble was changed by the call", case)
 
@@ -833,7 +875,8 @@ def sub_ensemble_skeleton(ctx):
             if sum(c) == 0:
                 c[rng.randrange(mm)] = 1
             cond.append(["%d/%d" % (x, sum(c)) for x in c])
-        cases.append({"old_shape": osh, "mshape": msh, "p_old": ["%d/%d" % (x, sum(w)) for x in w], "cond": cond})
+        cases.append({"old_shape": osh, "mshape": msh, "p_old": ["%d/%d" % (x, sum(w)) for x in w], "cond": cond,
+                      "eps": rng.choice([[1e-8, 1e-8], [2.0 ** -20, 1e-8], [1e-8, 2.0 ** -24], [0.0, 2.0 ** -40], [2.0 ** -30, 0.0]])})
     ctx.sample("ensemble_skeleton", cases[0])
     ctx.run_cases("ensemble_skeleton", chk_ensemble_skeleton, cases)
 
@@ -856,51 +899,63 @@ FNS = {"index_maps": chk_index_shape, "dist": chk_dist, "ensemble": chk_ensemble
        "ensemble_skeleton": chk_ensemble_skeleton, "sampling": chk_sampling}
 
 
+EQUIV_FILES = ["C16_MdEquiv", "C16_CondEquiv"]      # coq/gen/*.v, in dependency order
+
+
 def regen_md(ctx):
     """translator tie for the probability bookkeeping (same protocol as flow.regen_check, with this property's own translator
     gen/c16_py2coq.py): regenerate Gallina definitions of validate_prob_dist, MultinomialDistribution.__init__ / __getitem__ /
-    marginalize and StateEnsemble.state from the CURRENT source, compile them, re-check coq/gen/C16_MdEquiv.v
-    (regenerated = hand-written model on all inputs; transported theorems).  returns (ok, info)"""
-    import os, re, shutil, subprocess, sys
+    marginalize / conditionalize, StateEnsemble.__init__ / state and operators._compose_qoperations_MProcess_StateEnsemble from the
+    CURRENT source, compile them, re-check coq/gen/C16_MdEquiv.v and coq/gen/C16_CondEquiv.v (regenerated = hand-written model;
+    transported theorems).  returns (ok, info)"""
+    import os, shutil, subprocess, sys
     import runner
     V = runner.V
     scratch = os.path.join(ctx.scratch, "gen")
     os.makedirs(scratch, exist_ok=True)
     gen_v = os.path.join(scratch, "Gen_c16_md.v")
-    equiv = os.path.join(V, "coq", "gen", "C16_MdEquiv.v")
-    src = open(equiv).read()
-    src_nc = re.sub(r"\(\*.*?\*\)", " ", src, flags=re.S)
-    thms = re.findall(r"^\s*Theorem\s+([\w']+)", src_nc, flags=re.M)
-    ctx.theorems = list(ctx.theorems) + [t for t in thms if t not in ctx.theorems]
-    ctx.obligations += len(thms)
+    srcs, all_thms = {}, []
+    for name in EQUIV_FILES:
+        src = open(os.path.join(V, "coq", "gen", name + ".v")).read()
+        src_nc = re.sub(r"\(\*.*?\*\)", " ", src, flags=re.S)
+        thms = re.findall(r"^\s*Theorem\s+([\w']+)", src_nc, flags=re.M)
+        srcs[name] = (src, thms)
+        all_thms += thms
+    ctx.theorems = list(ctx.theorems) + [t for t in all_thms if t not in ctx.theorems]
+    ctx.obligations += len(all_thms)
     r = subprocess.run([sys.executable, os.path.join(V, "gen", "c16_py2coq.py"), os.environ.get("VERIF_REPO", "/repo"), gen_v],
                        capture_output=True, text=True, timeout=120)
     if r.returncode != 0:
-        return False, {"theorem": thms[0], "error": "translator rejected the source (outside its subset): " + (r.stdout + r.stderr)[-600:]}
+        return False, {"theorem": all_thms[0], "error": "translator rejected the source (outside its subset): " + (r.stdout + r.stderr)[-600:]}
     q = ["-Q", os.path.join(V, "coq", "theories"), "QV", "-Q", scratch, "QVGen"]
     r = subprocess.run(["timeout", "300", "coqc"] + q + [gen_v], capture_output=True, text=True)
     if r.returncode != 0:
-        return False, {"theorem": thms[0], "error": "regenerated definitions do not compile: " + (r.stdout + r.stderr)[-600:]}
-    dst = os.path.join(scratch, "C16_MdEquiv.v")
-    shutil.copy(equiv, dst)
-    r = subprocess.run(["timeout", "600", "coqc"] + q + [dst], capture_output=True, text=True)
-    out = r.stdout + r.stderr
-    if r.returncode != 0:
-        m_ = re.search(r"line (\d+), characters", out)
-        thm = None
-        if m_:
-            upto = "\n".join(src.splitlines()[:int(m_.group(1))])
-            names = re.findall(r"^\s*(?:Theorem|Lemma)\s+([\w']+)", upto, flags=re.M)
-            thm = names[-1] if names else None
-        return False, {"theorem": thm, "error": out[-800:]}
-    blocks = runner.parse_assumptions(out)
-    bad = [a for closed, axs in blocks for a in axs if a not in runner.ALLOWED_AXIOMS and a.split(".")[-1] not in runner.ALLOWED_AXIOMS]
-    if len(blocks) != len(thms) or bad:
-        return False, {"theorem": thms[0], "error": "assumption gate on regenerated proofs: %d blocks / %d theorems, disallowed %s" % (len(blocks), len(thms), bad)}
-    for t, (closed, axs) in zip(thms, blocks):
-        ctx.axioms[t] = "closed" if closed else sorted(set(axs))
-    ctx.discharged += len(thms)
-    return True, {}
+        return False, {"theorem": all_thms[0], "error": "regenerated definitions do not compile: " + (r.stdout + r.stderr)[-600:]}
+    ok, first_bad = True, None
+    for name in EQUIV_FILES:
+        src, thms = srcs[name]
+        dst = os.path.join(scratch, name + ".v")
+        shutil.copy(os.path.join(V, "coq", "gen", name + ".v"), dst)
+        r = subprocess.run(["timeout", "600", "coqc"] + q + [dst], capture_output=True, text=True)
+        out = r.stdout + r.stderr
+        if r.returncode != 0:
+            m_ = re.search(r"line (\d+), characters", out)
+            thm = None
+            if m_:
+                upto = "\n".join(src.splitlines()[:int(m_.group(1))])
+                names = re.findall(r"^\s*(?:Theorem|Lemma)\s+([\w']+)", upto, flags=re.M)
+                thm = names[-1] if names else None
+            return False, {"theorem": thm, "error": out[-800:]}       # later files depend on this one
+        blocks = runner.parse_assumptions(out)
+        bad = [a for closed, axs in blocks for a in axs if a not in runner.ALLOWED_AXIOMS and a.split(".")[-1] not in runner.ALLOWED_AXIOMS]
+        if len(blocks) != len(thms) or bad:
+            ok = False
+            first_bad = first_bad or {"theorem": thms[0], "error": "assumption gate on regenerated proofs (%s): %d blocks / %d theorems, disallowed %s" % (name, len(blocks), len(thms), bad)}
+            continue
+        for t, (closed, axs) in zip(thms, blocks):
+            ctx.axioms[t] = "closed" if closed else sorted(set(axs))
+        ctx.discharged += len(thms)
+    return (True, {}) if ok else (False, first_bad)
 
 
 def run(ctx):
